@@ -458,7 +458,11 @@ def run(ctx):
     h["fnname:build_xml"] = lambda i, a, k, n: CTRL
     it = ctx.interp("C10.R3", hooks=h)
     it.reset([])
-    res = it.call_function(xc, [tq], {"survey": sobj}, None, xc.node)
+    try:
+        res = it.call_function(xc, [tq], {"survey": sobj}, None, xc.node)
+    except Raised as e:
+        res = None
+        r3.fail("Question.xml_control[t]:evaluates", f"the control of a triggering question is built from the survey's trigger tables (raises {e.exc_name}{e.exc_args})", xc.loc())
     kids = [c for c in CTRL.children if isinstance(c, NodeVal)]
     r3.check(res is CTRL and [k.tag for k in kids] == ["setvalue", "odk:setgeopoint"], "Question.xml_control[t]", "setvalue and odk:setgeopoint are nested in the triggering question's control", xc.loc(),
              why_fail=repr(kids))
